@@ -78,9 +78,9 @@ CLAIMED.update({
         technique="Coq soundness proof w.r.t. a concrete address semantics + bit-exact correspondence + independent symbolic alias oracle",
         ref="DESIGN.md C06"),
     "C14": dict(
-        text="PARTIAL: the rotation-invariance theorem itself is not proved. What is machine-checked is the characterisation of the reported set (Props/C05.v: de-duplicated image of all cross-iteration dependency paths, each class once) and the bit-exact tie of the LCD model to the code; the property is then decided by an exhaustive metamorphic oracle on the implementation: every rotation offset of generated kernels (register, memory and write-back dependencies) and of shipped kernels on shipped models must report the same cycles (as instruction texts) with the same latencies.",
-        note="The missing theorem (edges of the doubled kernel are a window of the periodic instruction stream, hence invariant under rotation) is stated in DESIGN.md C14; reflexivity of the alias relation (C12) is one of its hypotheses.",
-        technique="Coq characterisation of the LCD set + exhaustive-rotation metamorphic testing on the implementation (partial)",
+        text="PARTIAL. Proved in Coq: (1) the model's dependency scan is prefix-determined -- what it reports about the first m following instructions is independent of what follows, so the edges of the doubled kernel are a window of the periodic instruction stream's edges; (2) for ANY periodic edge relation on stream positions, the cross-iteration paths seen through the unrotated window and through every rotated window correspond one to one with the same member instructions (positions modulo the period) and the same edge weights; (3) (Props/C05.v) the reported set is the de-duplicated image of all such paths. The glue between (1)-(3) for lcd_entries (line numbers, offset, de-duplication order) is not proved; the property is decided by an exhaustive metamorphic oracle on the implementation: every rotation offset of generated kernels (register, memory and write-back dependencies) and of shipped kernels on shipped models must report the same cycles (as instruction texts) with the same latencies, plus the bit-exact LCD correspondence.",
+        note="Trusted: Coq kernel. Not proved: the composition of the three theorems for the concrete lcd_entries; reflexivity of the alias relation (C12) is needed by it.",
+        technique="Coq proofs (prefix-determination of the scan by induction; window bijection for periodic edge relations) + exhaustive-rotation metamorphic testing (partial)",
         ref="DESIGN.md C14"),
     "C16": dict(
         text="The partition arithmetic of check_for_loopcarried_dep is re-translated from the Python source on every run; Coq proves that the chunks cover the kernel exactly once for every kernel length and worker count (incl. more workers than lines), that the post-processing (de-dup, sort, dictionary) is invariant under every permutation of the delivered path list, hence parallel = sequential for any interleaving. Tied to the code by replaying the path lists real worker processes delivered (worker counts 1..length+3, perturbed completion orders through a guarded hook) and by byte-identical repeated CLI runs.",
